@@ -1,20 +1,27 @@
 package proxy
 
-import "net/http"
+import (
+	"io"
+	"net/http"
+
+	"reservoir/proxy/responder"
+)
 
 // C10: each exchange on a CONNECT tunnel depends only on its own request and equals plain
 // proxying.  Self-composition: exchange 2 on a shared tunnel vs. the same exchange on a
 // fresh tunnel vs. plain HTTP, from the same cache state and origin answers.
 
 type exchange struct {
-	method string
-	path   string
-	rng    string
-	resp   originResp
+	method  string
+	path    string
+	rng     string
+	reqBody bool // the request carries a body (always for POST; for the same-resource exchange by choice)
+	resp    originResp
 }
 
 func symExchange(tag string) exchange {
 	x := exchange{method: []string{"GET", "HEAD", "POST"}[symChoice(3)], path: "/" + tag}
+	x.reqBody = x.method == "POST"
 	if symChoice(2) == 1 {
 		x.rng = "bytes=0-0"
 	}
@@ -42,7 +49,12 @@ func (x exchange) request() *http.Request {
 	if x.rng != "" {
 		h["Range"] = []string{x.rng}
 	}
-	return newReq(x.method, "o.test", x.path, "", h)
+	r := newReq(x.method, "o.test", x.path, "", h)
+	if x.reqBody {
+		r.Body = &bodyReader{data: []byte("rq"), failAt: -1}
+		r.ContentLength = 2
+	}
+	return r
 }
 
 func sameCapture(a, b capture, id string) {
@@ -69,6 +81,7 @@ func HarnessTunnelIsolation() {
 		if symChoice(2) == 1 {
 			x2.rng = "bytes=0-0"
 		}
+		x2.reqBody = x2.method == "POST" || symChoice(2) == 1 // also a GET / HEAD with a body (answered from the store)
 		vReach("same-resource")
 	} else {
 		x2 = symExchange("two")
@@ -100,4 +113,40 @@ func HarnessTunnelIsolation() {
 	vAssert(shared.length == fresh.length && shared.chunked == fresh.chunked, "c10.shared-vs-fresh-tunnel.framing-differs")
 	plain := run(false, true)
 	sameCapture(fresh, plain, "c10.tunnel-vs-plain")
+}
+
+// HarnessTunnelManyBytes: "however many requests the tunnel carries".  n requests of a declared
+// wire size (a 600 KiB upload each: together far more than any per-request limit) follow one
+// another on one tunnel; each is read from the tunnel's byte stream through whatever readers
+// the proxy wrapped around the connection, and each is answered like the first.
+func HarnessTunnelManyBytes() {
+	e := newEnv(backendMem, 1<<30)
+	e.o.script = []originResp{{status: 200, header: hdr("Cache-Control", "no-store"), body: []byte("ok")}}
+	n := vParam("exchanges", 3)
+	size := 600 << 10
+	if symChoice(2) == 1 {
+		size = 300 // ordinary small requests
+	}
+	s := &rawSink{}
+	vSetResponseSink(s.write)
+	i := 0
+	vSetRequestSource(func() (*http.Request, error) {
+		if i >= n {
+			return nil, io.EOF
+		}
+		i++
+		r := newReq("POST", "o.test", "/up", "", nil)
+		r.Body = &bodyReader{data: []byte("rq"), failAt: -1}
+		vNextRequestBytes(size)
+		return r, nil
+	})
+	e.p.ca = stubCA{}
+	w := &hijackWriter{recWriter: recWriter{h: http.Header{}}, conn: &fakeConn{}}
+	vClockFreeze(true)
+	e.p.handleCONNECT(responder.NewHTTPResponder(w), newReq("CONNECT", "o.test:443", "", "", nil))
+	vReach("tunnel-closed")
+	vAssert(len(s.caps) == n+1, "c10.later-exchange-on-the-tunnel-unanswered")
+	for k := 1; k < len(s.caps); k++ {
+		vAssert(s.caps[k].status == 200 && string(s.caps[k].body) == "ok", "c10.later-exchange-on-the-tunnel-differs")
+	}
 }
